@@ -47,6 +47,12 @@ _SCRATCH_OWNER = os.getpid()
 SCRATCH = tempfile.mkdtemp(prefix=f"verif-{os.getpid()}-")
 
 
+# everything the code under test or multiprocessing puts into "the temp dir" (pymp-* socket dirs of Manager
+# processes, mkdtemp run folders, default DiskCache dirs) lands inside the scratch area and disappears with it
+os.environ["TMPDIR"] = SCRATCH
+tempfile.tempdir = SCRATCH
+
+
 def _cleanup() -> None:
     if os.getpid() == _SCRATCH_OWNER:
         shutil.rmtree(SCRATCH, ignore_errors=True)
